@@ -119,6 +119,67 @@ def run_obligations(rep, obs, timeout_s, covers=()):
             rep.results.append((ob, verdict, info))
 
 
+def clause_covers(obs):
+    """vacuity guard behind every conditional clause: for a clause  A ==> B  (post-condition, loop-body contract,
+    ...) at least one of the places where it is proved must have  path-condition and A  satisfiable.  Returns
+    {clause: [cover obligations, one per place]}"""
+    groups = {}
+    for o in obs:
+        if o.kind in ('cover', 'lemma', 'flow', 'frame', 'memory', 'ub', 'unwind', 'declaration', 'loop-entry', 'call-requires') or not z3.is_app(o.goal) or o.goal.decl().kind() != z3.Z3_OP_IMPLIES:
+            continue
+        ant = o.goal.arg(0)
+        if z3.is_true(ant):
+            continue
+        key = strip_line(o.name)
+        cov = smt.Ob(o.name + ':cover:antecedent', list(o.hyps) + [ant], z3.BoolVal(False), kind='cover', fn=o.fn,
+                     meta={'subst': o.meta['subst']} if o.meta.get('subst') else None)
+        groups.setdefault(key, []).append(cov)
+    return groups
+
+
+def run_clause_covers(rep, groups, budget=10):
+    """round 1: up to three places per clause; round 2: all remaining places of the clauses still open"""
+    state = {k: 'open' for k in groups}
+    tried = {k: 0 for k in groups}
+    verdicts = {}
+    nq = 0
+    t0 = time.time()
+    for rnd in (1, 2):
+        batch = []
+        for k, covs in groups.items():
+            if state[k] == 'open':
+                take = covs[tried[k]:tried[k] + 3] if rnd == 1 else covs[tried[k]:]
+                if rnd == 1 and len(covs) > 3:      # spread: first, middle, last
+                    take = [covs[0], covs[len(covs) // 2], covs[-1]]
+                    groups[k] = covs = take + [c for c in covs if all(c is not t for t in take)]
+                tried[k] += len(take)
+                batch += [(k, c) for c in take]
+        if not batch:
+            break
+        res = smt.discharge([c for _k, c in batch], timeout_s=budget)
+        nq += len(batch)
+        for (k, _c), (_ob, v, _i) in zip(batch, res):
+            verdicts.setdefault(k, []).append(v)
+        for k, vs in verdicts.items():
+            if 'refuted' in vs:                 # sat: reachable
+                state[k] = 'reachable'
+            elif tried[k] >= len(groups[k]):
+                state[k] = 'vacuous' if all(v == 'discharged' for v in vs) else 'undecided'
+    for k in groups:
+        if state[k] == 'open':
+            state[k] = 'undecided'
+    rep.covers['clauses'] = len(groups)
+    rep.covers['clauses_reachable'] = sum(1 for v in state.values() if v == 'reachable')
+    rep.covers['clause_queries'] = nq
+    rep.covers['clause_time_s'] = round(time.time() - t0, 1)
+    for k, v in sorted(state.items()):
+        if v == 'vacuous':
+            rep.errors.append("vacuity: the antecedent of clause %s is unreachable wherever the clause is proved" % k)
+        elif v == 'undecided':
+            rep.notes.append("clause antecedent not shown reachable (solver budget): " + k)
+    return state
+
+
 def load_known(pid):
     p = os.path.join(VERIF, 'known_findings.json')
     if not os.path.exists(p):
@@ -458,8 +519,11 @@ def run_property(pid, tier, seed, c_part=None, py_items=(), lemmas=(), concretis
             covers += c2
         except (NotSupported, cfront.FrontEndError) as e:
             rep.errors.append("additional obligations: %s" % e)
+    groups = clause_covers(obs)
     apply_known(rep, obs)
     run_obligations(rep, obs, budget, covers)
+    if os.environ.get('VERIF_CLAUSE_COVERS', '1') != '0':
+        run_clause_covers(rep, groups)
     rep.assumptions = base + list(trusted) + rep.assumptions
     if extra:
         extra(rep, tu)
